@@ -162,6 +162,12 @@ def why_open(h, sc, facts, k, closer=None):
     sub = [n for n in nids if n in facts['sub_nids']]
     if sub:
         return facts['sub_nids'][sub[0]] + '-substep'
+    if sc.get('idless_catch'):
+        # the steps of the catches carry no ids in this scenario: a step with a generated id can only be one of them
+        for c_ in chain:
+            cr = h.create_by.get(c_)
+            if cr and cr['kind'] == 'step' and cr['nid'] not in facts['nodes']:
+                return 'catch-substep'
     # created by a push action: acts pushed into a step hang off the step but later chained acts do not count
     c = h.create_by.get(k)
     for a in h.actions:
